@@ -719,6 +719,21 @@ func packagePrepareWalkFn(root string, ignoreRules *ignorefiles.Ruleset) filepat
 			if filepath.IsAbs(linkTarget) {
 				return fmt.Errorf("module package path %q is a symlink with an absolute target", relPath)
 			}
+			// Likewise a relative target that climbs above the package root
+			// and comes back in by the (temporary) name of this directory.
+			depth := strings.Count(filepath.ToSlash(relPath), "/")
+			for _, seg := range strings.Split(filepath.ToSlash(linkTarget), "/") {
+				switch seg {
+				case "", ".":
+				case "..":
+					depth--
+				default:
+					depth++
+				}
+				if depth < 0 {
+					return fmt.Errorf("module package path %q is symlink traversing out of the package root", relPath)
+				}
+			}
 		}
 
 		// If we get here then we have a file or directory that isn't
